@@ -20,8 +20,10 @@
      rk/rd  kind and target of each request (chosen by the environment at Start)
      ustart/alone  history for the undeploy_all clause
 
-   `Fixes` selects repairs of the as-is code (the specification admits the as-is behaviour, Fixes = {},
-   and the behaviour with the minimal repairs proposed in notes/C26.md):
+   `Fixes` selects the repairs of notes/C26.md.  /repo contains all six (one `fix:` commit each), so the code is
+   described by Fixes = {"A", "B", "C", "D", "E", "F"}, for which TLC proves every clause on the quick scenarios;
+   Fixes = {} is the manager before the repairs (kept so that a tree that loses a repair is still followed in
+   lock step and its clause violations are reported on the real behaviour):
      "A"  _deploy sets the deployment's event when _inner_deploy raises
      "B"  undeploy clears/sets the event object it waited on instead of looking it up again
      "C"  undeploy returns when, after waiting, the deployment is no longer in deployments_map
